@@ -25,7 +25,7 @@ def canon(nodes, edges):
     return ns, collections.Counter((a, b) for a, b in edges)
 
 
-def make_project(rng, root, nfiles, shared=True):
+def make_project(rng, root, nfiles, shared=True, twins=0):
     files = {}
     frag = "int shared(int a, int b) { if (a > b) { return a + b; } helper.run(a, \"s\"); return a * b; }"
     for i in range(nfiles):
@@ -45,6 +45,14 @@ def make_project(rng, root, nfiles, shared=True):
         p = os.path.join(root, rel)
         os.makedirs(os.path.dirname(p), exist_ok=True)
         open(p, "w", encoding="utf-8").write(text)
+    # files with the same base name and the same text in other directories (package twins: client/Limits.java,
+    # server/Limits.java): identities must still tell them apart, whichever arrives last
+    for j, rel in enumerate(sorted(files)[:twins]):
+        trel = os.path.join("twin%d" % j, os.path.basename(rel))
+        files[trel] = files[rel]
+        p = os.path.join(root, trel)
+        os.makedirs(os.path.dirname(p), exist_ok=True)
+        open(p, "w", encoding="utf-8").write(files[rel])
     return files
 
 
@@ -58,7 +66,7 @@ def run(run):
         for nfiles in ([2, 3] if quick else [1, 2, 3, 4]):
             root = C.scratch("c07")
             try:
-                files = make_project(rng, root, nfiles)
+                files = make_project(rng, root, nfiles, twins=1 if nfiles < 4 else 0)
                 paths = [os.path.join(root, rel) for rel in sorted(files)]
                 # per-file graphs (the merge model's inputs) and the disjointness hypothesis
                 per_file, all_ids = {}, collections.Counter()
